@@ -186,8 +186,14 @@ class SolveManager:
         self.solves.append(solve)
 
     def apply(self):
-        """Applies all solves in the list."""
-        for solve in self.solves:
+        """Applies all solves, in order of increasing surface index.
+
+        A solve moves its surface and every surface behind it, so it changes
+        the ray at later surfaces only: applied front to back, every solve
+        still holds when the last one has been applied.
+        """
+        for solve in sorted(self.solves,
+                            key=lambda solve: solve.surface_idx):
             solve.apply()
 
     def clear(self):
